@@ -80,7 +80,11 @@ func runC04(w *mc.Worker) {
 	runVarSeqSpace(w, "vars-L2", 1, 2, func(c *seqCase, vars map[string]string, bal env.Bal) {
 		judgeSeqCase(w, c, vars, bal, owns, nontriv, false)
 	})
-	runEdgeSeqSpace(w, "edge-L2", 1, 2, func(c *seqCase, bal env.Bal) { judgeSeqCase(w, c, nil, bal, owns, nontriv, false) })
+	runEdgeSeqSpace(w, "edge-L2", 1, 2, func(c *seqCase, bal env.Bal) {
+		judgeSeqCase(w, c, nil, bal, owns, nontriv, false)
+		// the same against a store that omits absent / zero entries: no cache entry exists for them at first
+		judgeSeqCaseMode(w, c, nil, bal, owns, nontriv, false, env.Sparse)
+	})
 	runOriginSeqSpace(w, "origin-L2", 1, 2, []string{"x", "a"}, func(c *seqCase, oc *originCase) {
 		judgeSeqCaseX(w, c, nil, oc, owns, nontriv, false, env.Exact)
 	})
